@@ -20,10 +20,11 @@ import (
 )
 
 type scanCtx struct {
-	V     *Verifier
-	prog  *ssa.Program
-	fns   []*ssa.Function // all functions of the repository's own (non-test) packages
-	whole bool
+	sortVisit map[ssa.Value]bool
+	V         *Verifier
+	prog      *ssa.Program
+	fns       []*ssa.Function // all functions of the repository's own (non-test) packages
+	whole     bool
 }
 
 func scanOblig(prop, name string, ok bool, clause, detail string) *Oblig {
@@ -508,6 +509,16 @@ func (sc *scanCtx) firstUseIsSort(v ssa.Value) bool {
 	if refs == nil || len(*refs) == 0 {
 		return false
 	}
+	// the value flow of "s = append(s, x)" in a loop is cyclic (cell -> load -> append -> store -> cell): a value that is
+	// already being examined contributes nothing
+	if sc.sortVisit == nil {
+		sc.sortVisit = map[ssa.Value]bool{}
+	}
+	if sc.sortVisit[v] {
+		return false
+	}
+	sc.sortVisit[v] = true
+	defer delete(sc.sortVisit, v)
 	sorted := false
 	for _, r := range *refs {
 		switch i := r.(type) {
@@ -515,6 +526,9 @@ func (sc *scanCtx) firstUseIsSort(v ssa.Value) bool {
 			continue
 		case ssa.CallInstruction:
 			nm := calleeName(i.Common())
+			if nm == "builtin append" && len(i.Common().Args) > 0 && i.Common().Args[0] == v {
+				continue // growing the same list is not a use of its order
+			}
 			if nm == "sort.Strings" || nm == "sort.Slice" || nm == "sort.SliceStable" || nm == "slices.Sort" || nm == "sort.Ints" {
 				sorted = true
 				continue
@@ -537,6 +551,15 @@ func (sc *scanCtx) firstUseIsSort(v ssa.Value) bool {
 				continue
 			}
 			return false
+		case *ssa.MakeInterface:
+			// sort.Slice takes the slice as an interface value
+			if sc.firstUseIsSort(i) {
+				sorted = true
+				continue
+			}
+			if !sorted {
+				return false
+			}
 		default:
 			if !sorted {
 				return false
